@@ -355,6 +355,9 @@ func bcOracle(r *bcRun) {
 				r.Problems = append(r.Problems, name+" still blocked although its context is done")
 			} else if freed[g] || freedAfterReg(name) {
 				r.Problems = append(r.Problems, name+" still blocked although its key was freed / the broadcaster closed")
+			} else if len(freedAt["*"]) > 0 {
+				// (registered on a broadcaster that had been closed already: Receive must refuse, not hand out a function that blocks)
+				r.Problems = append(r.Problems, name+" still blocked although the broadcaster is closed (its Receive was accepted after Close)")
 			}
 		case "P":
 			if g == 0 {
